@@ -48,6 +48,16 @@ func genCase(prop string, seed uint64, tier string) *Case {
 	if c.SchedSeed == 0 {
 		c.SchedSeed = rng.Uint64() | 1
 	}
+	if os.Getenv("VERIF_DENSE") != "" {
+		// statement-level yield points dilute a uniform walk: dense builds use coarse policies
+		if c.Policy.Kind == "uniform" {
+			c.Policy.Kind, c.Policy.StickyP = "sticky", 0.97
+		} else if c.Policy.Kind == "sticky" && c.Policy.StickyP < 0.9 {
+			c.Policy.StickyP = 0.95
+		}
+		c.MaxSteps *= 4
+		c.X["dense"] = true
+	}
 	return c
 }
 
